@@ -55,7 +55,7 @@ let iopc_s = function
   | IoRcAcq -> "IoRcAcq" | IoRcWc -> "IoRcWc" | IoRcCwf -> "IoRcCwf" | IoRcItem -> "IoRcItem" | IoRcChk -> "IoRcChk"
   | IoRcSc c -> "IoRcSc." ^ sc_s c | IoRcApp -> "IoRcApp" | IoRcApp2 -> "IoRcApp2" | IoRcLen -> "IoRcLen"
   | IoRcAt a -> "IoRcAt." ^ at_s a | IoRcRel -> "IoRcRel" | IoRcRelX -> "IoRcRelX"
-  | IoHwConn -> "IoHwConn" | IoHwReq -> "IoHwReq" | IoHwFlU f -> "IoHwFlU." ^ fl_s f | IoHwTot -> "IoHwTot"
+  | IoHwConn -> "IoHwConn" | IoHwReq -> "IoHwReq" | IoHwFlU f -> "IoHwFlU." ^ fl_s f | IoHwTot -> "IoHwTot" | IoHwTotH -> "IoHwTotH"
   | IoHwTry -> "IoHwTry" | IoHwFlL f -> "IoHwFlL." ^ fl_s f | IoHwNTot -> "IoHwNTot" | IoHwNotify -> "IoHwNotify"
   | IoHwRel -> "IoHwRel" | IoHwRelX -> "IoHwRelX" | IoHwExcW -> "IoHwExcW" | IoHwCwf -> "IoHwCwf" | IoHwTot2 -> "IoHwTot2"
   | IoHwWCwf -> "IoHwWCwf" | IoHwWWc -> "IoHwWWc" | IoHwWc -> "IoHwWc"
